@@ -58,6 +58,27 @@ Calls ==
 \cup {C("NewBLSThresholdSignatureInspector", t, l, "-", OkIf(ValidInt(t) /\ l \in {"two", "many"})) : t \in Ints, l \in Lists}
 \cup {C("InspectorOp", op, i, b, "any-or-reject") :
         op \in {"TrustedAdd", "VerifyAndAdd", "VerifyShare", "HasShare", "ThresholdSignatureAfterAdds", "VerifyThresholdSignature"}, i \in Ints, b \in Bytes}
+\* the participant variant (own index, own key), its operations, and the key kinds handed to both constructors
+\cup {C("NewBLSThresholdSignatureParticipant", t, me, l, OkIf(ValidInt(t) /\ ValidInt(me) /\ l \in {"two", "many"})) : t \in Ints, me \in Ints, l \in Lists}
+\cup {C("ThresholdConstructorKeys", grp, shr, own, OkIf(grp = "bls" /\ shr = "bls" /\ own \in {"match", "none"})) :
+        grp \in KeyKinds, shr \in KeyKinds, own \in {"none", "match", "otherbls", "ecdsa"}}
+\cup {C("ParticipantOp", op, i, b, "any-or-reject") :
+        op \in {"TrustedAdd", "VerifyAndAdd", "VerifyShare", "HasShare", "ThresholdSignatureAfterAdds", "VerifyThresholdSignature", "SignShare"}, i \in Ints, b \in Bytes}
+\* list shapes that are longer, not shorter, than the key list; foreign keys inside the lists
+\cup {C("VerifyBLSSignatureManyMessages", l, s, m, "any-or-reject") : l \in Lists, s \in Bytes, m \in {"more-messages", "more-hashers", "fewer-keys", "ecdsa-key", "small-hasher"}}
+\cup {C("BatchVerifyBLSSignaturesOneMessage", l, s, m, "any-or-reject") : l \in Lists, s \in Bytes, m \in {"more-signatures", "fewer-keys", "ecdsa-key", "small-hasher"}}
+\cup {C("VerifyBLSSignatureOneMessageKeys", l, k, "-", IF k = "ecdsa" \/ l \in {"nil", "empty"} THEN "reject" ELSE "any") : l \in Lists, k \in KeyKinds}
+\* remaining exported entry points that take byte strings or lists
+\cup {C("SPOCKVerifyAgainstData", k, s, h, IF k = "ecdsa" \/ h # "ok" THEN "reject" ELSE "any") : k \in KeyKinds, s \in Bytes, h \in Hashers}
+\cup {C("IsBLSSignatureIdentity", s, "-", "-", "any") : s \in Bytes}
+\cup {C("SignatureAndHashHelpers", s, "-", "-", "any") : s \in Bytes}
+\cup {C("KeyEquals", k1, k2, "-", "any") : k1 \in {"bls", "p256", "k1"}, k2 \in {"bls", "p256", "k1"}}
+\cup {C("NewExpandMsgXOFKMAC128", tg, "-", "-", "ok") : tg \in {"empty", "short", "huge"}}
+\cup {C("EncodePermutation", l, "-", "-", "any") : l \in {"nil", "empty", "perm", "notperm"}}
+\cup {C("PRGRead", sz, "-", "-", "ok") : sz \in {"nil", "empty", "one", "64", "65", "big"}}
+\* DKG: Start with every seed class, per protocol and role
+\cup {C("DKGStart", p, role, sd, IF (role = "dealer" \/ p = "jf") /\ sd \in {"nil", "empty", "31"} THEN "reject" ELSE "any-or-reject") :
+        p \in {"fvss", "qual", "jf"}, role \in {"dealer", "other"}, sd \in {"nil", "empty", "31", "32", "256", "huge"}}
 \* DKG constructors; handlers with arbitrary messages are enumerated separately (DKGMessages below)
 \cup {C("NewDKG", p, n, t, "any-or-reject") : p \in {"fvss", "qual", "jf"}, n \in Ints, t \in Ints}
 \cup {C("NewDKGIndices", p, me, dl, OkIf(ValidInt(me) /\ (p = "jf" \/ ValidInt(dl)))) : p \in {"fvss", "qual", "jf"}, me \in Ints, dl \in Ints}
@@ -80,8 +101,9 @@ Tags   == {0, 1, 2, 3, 4, 255}
 Sizes  == {"none", "1", "31", "32", "33", "vec-1", "vec", "vec+1", "huge"}
 Origs  == {-1, 0, 1, 2, 3, 256, 258, -255}      \* incl. out-of-range values congruent to an index modulo 256
 Phases == {"new", "started", "timeout1", "timeout2", "ended"}
-DKGMessages == {[fn |-> "DKGMessage", a |-> p, b |-> ph, c |-> <<ch, tg, sz, o>>, expect |-> "any-or-reject"] :
-                  p \in {"fvss", "qual", "jf"}, ph \in Phases, ch \in {"b", "p"}, tg \in Tags, sz \in Sizes, o \in Origs}
+Roles  == {"other", "dealer"}                    \* the receiving instance is a plain participant / the dealer (who answers complaints)
+DKGMessages == {[fn |-> "DKGMessage", a |-> p, b |-> ph, c |-> <<ch, tg, sz, o, rl>>, expect |-> "any-or-reject"] :
+                  p \in {"fvss", "qual", "jf"}, ph \in Phases, ch \in {"b", "p"}, tg \in Tags, sz \in Sizes, o \in Origs, rl \in Roles}
 
 VARIABLE call
 Init == call \in Calls \cup DKGMessages
